@@ -7,6 +7,7 @@ import (
 type SimP4 struct {
 	w     *World
 	State connectivity.State
+	Fired map[string]int
 }
 
-func newSimP4(w *World) *SimP4 { return &SimP4{w: w, State: connectivity.Ready} }
+func newSimP4(w *World) *SimP4 { return &SimP4{w: w, State: connectivity.Ready, Fired: map[string]int{}} }
